@@ -35,6 +35,8 @@ def mutants(prog):
         ("generic inverse drops link", "deepali.spatial.generic", "GenericSpatialTransform.inverse", "inv = super().inverse(link=link, update_buffers=update_buffers)", "inv = super().inverse(update_buffers=update_buffers)", "T6x.linked-inverse"),
         ("generic update does not push predicted parameters", "deepali.spatial.generic", "GenericSpatialTransform.update", "transform.data_(p)", "pass", "T6x."),
         ("update hook not registered", B, "SpatialTransform.register_update_hook", "self._update_hook_handle = self.register_forward_pre_hook(self._update_hook)", "self._update_hook_handle = None", "T6x."),
+        ("condition_: keyword conditions merged", "deepali.spatial.base", "SpatialTransform.condition_", "self._kwargs = kwargs", "self._kwargs.update(kwargs)", "T6x."),
+        ("ddf update: buffered field kept without resizing", "deepali.spatial.nonrigid", "DisplacementFieldTransform.update", "u = self.evaluate()", "u = self.evaluate() if self._resize or getattr(self, 'u', None) is None else self.u", "T6x.call-fresh"),
     ]
     for name, mod, fn, old, new, expect in specs:
         ov = source_sub(prog, mod, fn, old, new)
